@@ -10,6 +10,7 @@ fn size(nm: &str, l: usize) -> usize {
     match nm {
         "0" => 0,
         "1" => 1,
+        "2" => 2,
         "H" => (l - 1) / 2,
         "L-2" => l - 2,
         "L-1" => l - 1,
